@@ -407,12 +407,12 @@ pub fn sets(ctx: &Ctx) -> Vec<CaseSet> {
         }),
     ));
 
-    out.push(CaseSet::new("escape-multibyte-alignment", ctx.size(20_000, 1_500_000), Box::new(move |rep, rng, _| alignment_case(rep, rng))));
+    out.push(CaseSet::new("escape-multibyte-alignment", ctx.size(60_000, 4_500_000), Box::new(move |rep, rng, _| alignment_case(rep, rng))));
 
     // random corrupted soup (no demand, observation only)
     out.push(CaseSet::new(
         "corrupted-soup",
-        ctx.size(10_000, 600_000),
+        ctx.size(30_000, 1_800_000),
         Box::new(move |rep, rng, _| {
             let mut b = crate::gen::text::token_soup(rng, 8);
             if rng.chance(2, 3) {
@@ -427,7 +427,7 @@ pub fn sets(ctx: &Ctx) -> Vec<CaseSet> {
     let mut cfg = GenCfg::default_dialect();
     cfg.name_ok = gen::any_name;
     let cfg = Arc::new(cfg);
-    let per = ctx.size(40, 3_000);
+    let per = ctx.size(120, 9_000);
     out.push(CaseSet::new(
         "print-side-all-option-sets",
         N_P as u64 * per,
